@@ -1,6 +1,7 @@
 import Mathlib.NumberTheory.LegendreSymbol.Basic
 import StrandModel.Lemmas.CodecShuffle
 import StrandModel.Props.C15
+import StrandModel.Lemmas.RadixLemmas
 /-
 C11 — a byte string is accepted as a group element only if it denotes a member of the prime-order
 group the context works in (multiplicative back-ends: an integer in [1, p) that is a quadratic
@@ -376,5 +377,62 @@ example : tryFromSlice (vecE (natOps P23 .bigint))
     [2, 0, 0, 0, 5, 0, 0, 0, 1, 0, 0, 0, 13, 5, 0, 0, 0, 1, 0, 0, 0, 2] = some [13, 2] := by decide
 example : tryFromSlice (vecE (natOps P23 .bigint))
     [2, 0, 0, 0, 5, 0, 0, 0, 1, 0, 0, 0, 13, 5, 0, 0, 0, 1, 0, 0, 0, 5] = none := by decide
+
+/-! ### `element_from_string_radix` (the other way an untrusted value becomes an element) -/
+
+/-- WHATEVER the string parser of the dependency does, an element accepted from a string is the
+    parsed integer, lies in `[1, p)` and is a member of the order-`q` subgroup -/
+theorem element_from_string_sound (hp : P.p = 2 * P.q + 1) (parse : Bytes → Option ℕ) (s : Bytes)
+    (e : ℕ) (h : elementFromStringWith P parse s = some e) :
+    parse s = some e ∧ 1 ≤ e ∧ e < P.p ∧ natValid P e := by
+  unfold elementFromStringWith at h
+  split at h
+  · cases h
+  · next n hn =>
+    obtain ⟨rfl, h1, h2, h3⟩ := (elementFromNat_eq_some_iff_valid P hp n e).1 h
+    exact ⟨hn, h1, h2, h3⟩
+
+/-- with the modelled grammars: accepted iff the string parses to a canonical member -/
+theorem element_from_string_iff (hp : P.p = 2 * P.q + 1) (radix : ℕ) (s : Bytes) (e : ℕ) :
+    elementFromStringRadix P fl radix s = some e ↔
+      parseRadix fl radix s = some e ∧ 1 ≤ e ∧ e < P.p ∧ natValid P e := by
+  constructor
+  · exact element_from_string_sound P hp _ s e
+  · rintro ⟨hs, h1, h2, h3⟩
+    unfold elementFromStringRadix elementFromStringWith
+    rw [hs]
+    exact (elementFromNat_eq_some_iff_valid P hp e e).2 ⟨rfl, h1, h2, h3⟩
+
+/-- a member printed with `to_string_radix` in any radix 2..36 is read back as itself -/
+theorem element_string_roundtrip (hp : P.p = 2 * P.q + 1) {radix : ℕ} (hr : 2 ≤ radix)
+    (hr2 : radix ≤ 36) {e : ℕ} (h1 : 1 ≤ e) (h2 : e < P.p) (h3 : natValid P e) :
+    elementFromStringRadix P fl radix (toRadix radix e) = some e :=
+  (element_from_string_iff P fl hp radix _ e).2 ⟨parseRadix_toRadix fl hr hr2 e, h1, h2, h3⟩
+
+/-- a string that does not parse, or parses to zero, to a value ≥ p, or to a non-member, is refused -/
+theorem element_from_string_rejects (hp : P.p = 2 * P.q + 1) (radix : ℕ) (s : Bytes)
+    (h : ∀ n, parseRadix fl radix s = some n → n = 0 ∨ P.p ≤ n ∨ ¬ natValid P n) :
+    elementFromStringRadix P fl radix s = none := by
+  cases hres : elementFromStringRadix P fl radix s with
+  | none => rfl
+  | some e =>
+    obtain ⟨hs, h1, h2, h3⟩ := (element_from_string_iff P fl hp radix s e).1 hres
+    rcases h e hs with h0 | hge | hnv
+    · omega
+    · omega
+    · exact absurd h3 hnv
+
+example : elementFromStringRadix P23 .bigint 10 [49, 51] = some 13 := by decide          -- "13"
+example : elementFromStringRadix P23 .bigint 16 [43, 100] = some 13 := by decide         -- "+d"
+example : elementFromStringRadix P23 .malachite 16 [43, 100] = none := by decide         -- "+d"
+example : elementFromStringRadix P23 .bigint 10 [49, 95, 51] = some 13 := by decide      -- "1_3"
+example : elementFromStringRadix P23 .bigint 10 [53] = none := by decide                 -- "5": non-residue
+example : elementFromStringRadix P23 .bigint 10 [50, 50] = none := by decide             -- "22" = p-1
+example : elementFromStringRadix P23 .bigint 10 [51, 54] = none := by decide             -- "36" = 13 + p
+example : elementFromStringRadix P23 .bigint 10 [48] = none := by decide                 -- "0"
+example : elementFromStringRadix P23 .bigint 10 [] = none := by decide
+example : elementFromStringRadix P23 .bigint 10 [45, 49] = none := by decide             -- "-1"
+example : toRadix 16 255 = [102, 102] := by decide
+example : toRadix 36 35 = [122] := by decide
 
 end Strand.C11
